@@ -70,6 +70,10 @@ o.before('{', '''
             ==> !(x == old_range.start && y == new_range.start) && !(x == old_range.end && y == new_range.end),
         dl_expired(deadline) ==> res is None,
         deadline is None ==> res is Some,
+        // C03, Myers' theorem (assumed with the rest of this contract): the middle snake lies on an optimal path, so the split is optimal
+        deadline is None ==> (res matches Some((x, y)) ==>
+            lcs_len(old, old_range.start as int, old_range.end as int, new, new_range.start as int, new_range.end as int)
+                == lcs_len(old, old_range.start as int, x as int, new, new_range.start as int, y as int) + lcs_len(old, x as int, old_range.end as int, new, y as int, new_range.end as int)),
 ''', start=o.find('fn find_middle_snake<Old, New>('))
 
 # ---- conquer
@@ -83,11 +87,14 @@ o.before('{', '''
     ensures
         err_post(*vstd::prelude::old(d), *final(d), res),
         (*final(d)).fobs() == (*vstd::prelude::old(d)).fobs(),
-        seg_post(*vstd::prelude::old(d), *final(d), old, old_range, new, new_range, alg_lvl(deadline), false, Seq::<Ev>::empty(), res.is_ok()),
+        (*final(d)).config() == (*vstd::prelude::old(d)).config(),
+        seg_post(*vstd::prelude::old(d), *final(d), old, old_range, new, new_range, alg_lvl(deadline), deadline is None, Seq::<Ev>::empty(), res.is_ok()),
         final(vf).wf(), final(vf).offset == vstd::prelude::old(vf).offset, final(vb).wf(), final(vb).offset == vstd::prelude::old(vb).offset,
     decreases (old_range.end - old_range.start) + (new_range.end - new_range.start),
 ''', start=c0)
+IB = 'old, o0 + common_prefix_len, oe0 - common_suffix_len, new, n0 + common_prefix_len, ne0 - common_suffix_len'   # the box without common prefix / suffix
 o.after('{', '''
+hide(seg_eqs); hide(lcs_len);   // C03 bookkeeping goes through lemmas only (keeps the query small)
 broadcast use {axiom_pure_index, axiom_pure_eq};
 let ghost rel = rel_of(old, new); let ghost lvl = alg_lvl(deadline);
 let ghost o0 = old_range.start as int; let ghost n0 = new_range.start as int;
@@ -95,7 +102,10 @@ let ghost oe0 = old_range.end as int; let ghost ne0 = new_range.end as int;
 let ghost d0 = *d; let ghost t0 = d.trace(); let ghost rs0 = d.rely_st(); let ghost r1 = d.rely_rel();
 let ghost mut s: Seq<Ev> = Seq::empty();
 let ghost mut oc: int = o0; let ghost mut nc: int = n0;
+let ghost opt = deadline is None;      // C03: no deadline => the script is optimal
+let ghost mut eqs: int = 0;            // number of items reported equal so far
 proof { lemma_seg_empty(rel, lvl, o0, n0); lemma_run_empty(r1, rs0); assert(t0 + s =~= t0); assert(alg_inv(*d, d0, t0, s, rel, lvl, rs0, o0, n0, oc, nc)); }
+proof { assert(eqs == seg_eqs(rel, lvl, s, o0, n0, oc, nc)); }
 ''', start=c0, stmt=False, ind='    ')
 
 def call(o, start, pat, ev, adv, nth=1):
@@ -110,7 +120,7 @@ proof { let e = %s; if d0.relies() { pre_call(rel, r1, lvl, s, e, o0, n0, oc, nc
     j = o.stmt_end(i + len(pre))
     post = ann.ghost('''
 proof { let e = %s; post_call(rel, r1, lvl, s, e, o0, n0, oc, nc, rs0); assert((t0 + s).push(e) =~= t0 + s.push(e)); s = s.push(e); %s
-    assert(alg_inv(*d, d0, t0, s, rel, lvl, rs0, o0, n0, oc, nc)); }
+    assert(alg_inv(*d, d0, t0, s, rel, lvl, rs0, o0, n0, oc, nc)); eqs = eqs + ev_eqs(e); assert(eqs == seg_eqs(rel, lvl, s, o0, n0, oc, nc)); }
 ''' % (ev, adv), ind)
     o.lines[j+1:j+1] = post
     return j + 1 + len(post)
@@ -136,19 +146,28 @@ proof { if d0.relies() { lemma_seg_any(rel, r1, lvl, s, o0, n0, oc, nc, rs0); le
     post = ann.ghost('''
 proof {
     let sa = choose|q: Seq<Ev>| #[trigger] seg(old, new, lvl, q, old_%(r)s.start as int, new_%(r)s.start as int, old_%(r)s.end as int, new_%(r)s.end as int)
-        && d.trace() == tm + q + Seq::<Ev>::empty() && (dm.relies() ==> d.rely_st() == run_rel(dm.rely_rel(), rm, q));
+        && d.trace() == tm + q + Seq::<Ev>::empty() && (dm.relies() ==> d.rely_st() == run_rel(dm.rely_rel(), rm, q))
+        && (opt ==> seg_eqs(rel, lvl, q, old_%(r)s.start as int, new_%(r)s.start as int, old_%(r)s.end as int, new_%(r)s.end as int)
+                == lcs_len(old, old_%(r)s.start as int, old_%(r)s.end as int, new, new_%(r)s.start as int, new_%(r)s.end as int));
     lemma_seg_concat(rel, lvl, s, sa, o0, n0, oc, nc, old_%(r)s.end as int, new_%(r)s.end as int);
     lemma_run_concat(r1, rs0, s, sa);
     assert((t0 + s) + sa + Seq::<Ev>::empty() =~= t0 + (s + sa));
+    eqs = eqs + seg_eqs(rel, lvl, sa, oc, nc, old_%(r)s.end as int, new_%(r)s.end as int);
     s = s + sa; oc = old_%(r)s.end as int; nc = new_%(r)s.end as int;
-    assert(alg_inv(*d, d0, t0, s, rel, lvl, rs0, o0, n0, oc, nc));
+    assert(alg_inv(*d, d0, t0, s, rel, lvl, rs0, o0, n0, oc, nc)); assert(eqs == seg_eqs(rel, lvl, s, o0, n0, oc, nc));%(x)s
 }
-''' % {'r': rng}, ind)
+''' % {'r': rng, 'x': ('\n    assert(opt ==> eqs == common_prefix_len + lcs_len(%s));   // the split is optimal (find_middle_snake)' % IB) if rng == 'b' else ''}, ind)
     o.lines[j+1:j+1] = post
     p = j + 1 + len(post)
 
 p = call(o, p, 'd.delete(', 'Ev::Delete(old_range.start, (old_range.end - old_range.start) as usize, new_range.start)', 'oc = oc + (old_range.end - old_range.start);')
 p = call(o, p, 'd.insert(', 'Ev::Insert(old_range.start, new_range.start, (new_range.end - new_range.start) as usize)', 'nc = nc + (new_range.end - new_range.start);')
+o.before('if common_suffix_len > 0 {', '''
+proof {   // the one-sided leaves report nothing equal and an empty side has lcs 0; the fallback needs a deadline
+    if opt && (o0 + common_prefix_len >= oe0 - common_suffix_len || n0 + common_prefix_len >= ne0 - common_suffix_len) { lemma_lcs_empty(IB); }
+    assert(opt ==> eqs == common_prefix_len + lcs_len(IB));
+}
+'''.replace('IB', IB), start=p)
 p = call(o, p, 'd.equal(common_suffix.0, common_suffix.1, common_suffix_len)?;',
      'Ev::Equal(common_suffix.0, common_suffix.1, common_suffix_len)', 'oc = oc + common_suffix_len; nc = nc + common_suffix_len;')
 i = o.find('Ok(())', p)
@@ -158,6 +177,8 @@ proof {
     assert(oc == oe0 && nc == ne0);
     assert(t0 + s + Seq::<Ev>::empty() =~= t0 + s);
     assert(seg(old, new, lvl, s, o0, n0, oe0, ne0));
+    if opt { lemma_lcs_strip(old, o0, oe0, new, n0, ne0, common_prefix_len as int, common_suffix_len as int); }
+    assert(opt ==> eqs == lcs_len(old, o0, oe0, new, n0, ne0));
 }
 ''', '    ')
 
@@ -168,7 +189,8 @@ o.before('{', '''
     ensures
         err_post(*vstd::prelude::old(d), *final(d), res),
         (*final(d)).fobs() == (*vstd::prelude::old(d)).fobs(),
-        seg_post(*vstd::prelude::old(d), *final(d), old, old_range, new, new_range, alg_lvl(deadline), false, fin::<D>(), res.is_ok()),
+        (*final(d)).config() == (*vstd::prelude::old(d)).config(),
+        seg_post(*vstd::prelude::old(d), *final(d), old, old_range, new, new_range, alg_lvl(deadline), deadline is None, fin::<D>(), res.is_ok()),
 ''', start=dd)
 i = o.find('d.finish()', dd)
 o.lines[i:i] = __import__('ann').ghost('''
@@ -176,7 +198,9 @@ proof {
     let lvl = alg_lvl(deadline);
     let d0 = *vstd::prelude::old(d);
     let sa = choose|q: Seq<Ev>| #[trigger] seg(old, new, lvl, q, old_range.start as int, new_range.start as int, old_range.end as int, new_range.end as int)
-        && d.trace() == d0.trace() + q + Seq::<Ev>::empty() && (d0.relies() ==> d.rely_st() == run_rel(d0.rely_rel(), d0.rely_st(), q));
+        && d.trace() == d0.trace() + q + Seq::<Ev>::empty() && (d0.relies() ==> d.rely_st() == run_rel(d0.rely_rel(), d0.rely_st(), q))
+        && (deadline is None ==> seg_eqs(rel_of(old, new), lvl, q, old_range.start as int, new_range.start as int, old_range.end as int, new_range.end as int)
+                == lcs_len(old, old_range.start as int, old_range.end as int, new, new_range.start as int, new_range.end as int));
     if d0.relies() { lemma_seg_any(rel_of(old, new), d0.rely_rel(), lvl, sa, old_range.start as int, new_range.start as int, old_range.end as int, new_range.end as int, d0.rely_st()); }
     assert(d0.trace() + sa + Seq::<Ev>::empty() + fin::<D>() =~= d0.trace() + sa + fin::<D>());
     assert(sa + Seq::<Ev>::empty() =~= sa);
@@ -189,6 +213,7 @@ o.before('{', '''
     ensures
         err_post(*vstd::prelude::old(d), *final(d), res),
         (*final(d)).fobs() == (*vstd::prelude::old(d)).fobs(),
-        seg_post(*vstd::prelude::old(d), *final(d), old, old_range, new, new_range, alg_lvl(None), false, fin::<D>(), res.is_ok()),
+        (*final(d)).config() == (*vstd::prelude::old(d)).config(),
+        seg_post(*vstd::prelude::old(d), *final(d), old, old_range, new, new_range, alg_lvl(None), true, fin::<D>(), res.is_ok()),
 ''', start=df)
 o.save()
